@@ -96,6 +96,8 @@ func Signature() (sig string, detail string) {
 		readers = Match(gs, "semacquire", "heimdalr/dag", "RWMutex).RLock")
 	}
 	ledgerWaiters := Match(gs, "sync.RWMutex", "accountant.(*AccountingBook)")
+	// (a method with a value receiver shows as accountant.AccountingBook.Method: it waits for a copy of the ledger lock)
+	ledgerWaiters = append(ledgerWaiters, Match(gs, "sync.RWMutex", "accountant.AccountingBook.")...)
 	chanSenders := Match(gs, "chan send", "accountant.(*AccountingBook)")
 	bufferWaiters := Match(gs, "sync.Mutex", "accountant.(*buffer)")
 	if len(bufferWaiters) == 0 {
